@@ -377,6 +377,11 @@ func init() {
 			p.Quick = append(p.Quick, r)
 			p.Thorough = append(p.Thorough, r)
 		}
+		{
+			r := HRun{Entry: "HarnessC16Gutter", Bound: "default output with snippet for 13 line numbers around the powers of ten x 4 columns: the three gutter bars are aligned, the source line follows the gutter, the caret is under the reported column", Require: []string{"printed"}}
+			p.Quick = append(p.Quick, r)
+			p.Thorough = append(p.Thorough, r)
+		}
 		props["C16"] = p
 	}
 
